@@ -17,7 +17,7 @@ from c06 import root_local
 BV = "bit_vector::BitVector"
 META = {
     "level": "other",
-    "technique": "static analysis: guard dominance on option-field stores, payload provenance in loaders, must-call before Ok in composite loaders (MIR, rustc_private driver)",
+    "technique": "static analysis: guard dominance on option-field stores, payload provenance in loaders, must-call before Ok in composite loaders, validation formulas vs builder counts (MIR, rustc_private driver; bodies normalised by helper inlining and combinator expansion)",
     "explanation": "The three option fields of BitVector are written only by the enable_* methods (under the negative supports_* guard, with "
                    "the matching support type built from self), by the constructors (None) and by load (the loaded options, unmodified). "
                    "Composite loaders (SparseVector, WMCore, RLVector) must call the enabling/rebuilding routines on every path to Ok. "
